@@ -21,17 +21,28 @@ Fixpoint after_p (en : env) (props : list string) (pc : Z) (p : prog) (m : mstat
     let m1 := after_e en pc c m in
     let m2 := add_stmt (with_stack m1 (m_stack m)) pj (Jz pj (reify_e en pc c) ea) in
     after_p en props ea r (after_p en props (pj + 3) a m2)
+  | PIfE c a eb r =>
+    let pj := pc + zlen (compile_e c) in
+    let jp := pj + 3 + zlen (compile_p a) in
+    let je := jp + 3 + zlen (compile_p eb) in
+    let m1 := after_e en pc c m in
+    let m2 := add_stmt (with_stack m1 (m_stack m)) pj (Jz pj (reify_e en pc c) (jp + 3)) in
+    let m3 := add_stmt (after_p en props (pj + 3) a m2) jp (Jump jp je) in
+    after_p en props je r (after_p en props (jp + 3) eb m3)
   end.
 
 Lemma agrees_p_jz en props pc c m pj x :
   agrees_p en props m -> agrees_p en props (add_stmt (with_stack (after_e en pc c m) (m_stack m)) pj x).
 Proof. unfold agrees_p, agrees, add_stmt, with_stack, after_e, push, with_globals. destruct m as [st fn cx]; simpl. tauto. Qed.
 
+Lemma agrees_add_stmt en props m i x : agrees_p en props m -> agrees_p en props (add_stmt m i x).
+Proof. unfold agrees_p, agrees, add_stmt. destruct m as [st fn cx]; simpl. tauto. Qed.
+
 Lemma after_p_facts en props : forall p pc m, agrees_p en props m ->
   agrees_p en props (after_p en props pc p m) /\ m_stack (after_p en props pc p m) = m_stack m /\
   f_stmts (m_fn (after_p en props pc p m)) = f_stmts (m_fn m) ++ flats (items en props pc p).
 Proof.
-  induction p as [|s r IH|c a IHa r IHr]; intros pc m Hag.
+  induction p as [|s r IH|c a IHa r IHr|c a IHa eb IHe r IHr]; intros pc m Hag.
   - cbn [after_p items flats]. rewrite app_nil_r. auto.
   - cbn [after_p items flats flat_i].
     destruct (IH (pc + zlen (compile_s s)) (after_s en props pc s m) (agrees_after_s _ _ _ _ _ Hag)) as (H1 & H2 & H3).
@@ -45,6 +56,19 @@ Proof.
     split; [exact R1|]. split; [rewrite R2, A2; reflexivity|].
     rewrite R3, A3. subst m2. unfold add_stmt, with_stack, after_e, push, with_globals. cbn [m_fn f_stmts set_stmts set_globals].
     rewrite <- !app_assoc. reflexivity.
+  - cbn [after_p items flats]. rewrite flat_ife.
+    set (pj := pc + zlen (compile_e c)). set (jp := pj + 3 + zlen (compile_p a)). set (je := jp + 3 + zlen (compile_p eb)).
+    set (m2 := add_stmt (with_stack (after_e en pc c m) (m_stack m)) pj (Jz pj (reify_e en pc c) (jp + 3))).
+    assert (Hag2 : agrees_p en props m2) by (apply agrees_p_jz; exact Hag).
+    destruct (IHa (pj + 3) m2 Hag2) as (A1 & A2 & A3).
+    set (m3 := add_stmt (after_p en props (pj + 3) a m2) jp (Jump jp je)).
+    assert (Hag3 : agrees_p en props m3) by (apply agrees_add_stmt; exact A1).
+    destruct (IHe (jp + 3) m3 Hag3) as (E1 & E2 & E3).
+    destruct (IHr je (after_p en props (jp + 3) eb m3) E1) as (R1 & R2 & R3).
+    split; [exact R1|]. split; [rewrite R2, E2; subst m3; cbn [add_stmt m_stack]; rewrite A2; reflexivity|].
+    rewrite R3, E3. subst m3. cbn [add_stmt m_fn f_stmts set_stmts]. rewrite A3. subst m2.
+    unfold add_stmt, with_stack, after_e, push, with_globals. cbn [m_fn f_stmts set_stmts set_globals m_stack].
+    cbn [app]. rewrite <- !app_assoc. cbn [app]. reflexivity.
 Qed.
 
 Lemma u8_jz_bytes off : 0 <= off < 65536 -> u8 (b (off / 256)) * 256 + u8 (b off) = off.
@@ -59,7 +83,7 @@ Theorem exec_p en props : forall p, wf_p en p ->
     exists r', run_ops (ninstr_p p + fuel) d off len a r m
                = run_ops fuel d off len (a + zlen (compile_p p)) r' (after_p en props a p m).
 Proof.
-  induction p as [|s rest IH|c body IHa rest IHr]; intros Hwf d off len a fuel r m Hag Hst Hc Hoff Hlen.
+  induction p as [|s rest IH|c body IHa rest IHr|c body IHa ebody IHe rest IHr]; intros Hwf d off len a fuel r m Hag Hst Hc Hoff Hlen.
   - exists r. cbn [ninstr_p compile_p after_p Nat.add]. rewrite zlen_nil, Z.add_0_r. reflexivity.
   - destruct Hwf as [Hs Hr]. cbn [compile_p ninstr_p after_p] in *. rewrite zlen_app in *.
     apply code_at_app in Hc. destruct Hc as [Hcs Hcr].
@@ -100,6 +124,59 @@ Proof.
       [replace (pj + 3 + zlen (compile_p body)) with (a + zlen (compile_e c) + 3 + zlen (compile_p body)) by (subst pj; lia); exact Hcr
       | subst pj; lia | subst pj; lia |].
     rewrite E4. exists r4. f_equal. subst pj. lia.
+  - (* if-else *)
+    destruct Hwf as (Hwc & Hne & Hne' & Hsz & Hsz' & Hwa & Hwe & Hwr). cbn [compile_p ninstr_p after_p] in *.
+    rewrite !zlen_app in *.
+    change (zlen (jz (3 + zlen (compile_p body) + 3))) with 3 in *. change (zlen (jmp (3 + zlen (compile_p ebody)))) with 3 in *.
+    apply code_at_app in Hc. destruct Hc as [Hcc Hc]. apply code_at_app in Hc. destruct Hc as [Hcj Hc].
+    apply code_at_app in Hc. destruct Hc as [Hca Hc]. apply code_at_app in Hc. destruct Hc as [Hcm Hc].
+    apply code_at_app in Hc. destruct Hc as [Hce Hcr].
+    change (zlen (jz (3 + zlen (compile_p body) + 3))) with 3 in *. change (zlen (jmp (3 + zlen (compile_p ebody)))) with 3 in *.
+    pose proof (zlen_nonneg (compile_e c)). pose proof (zlen_nonneg (compile_p body)). pose proof (zlen_nonneg (compile_p ebody)).
+    pose proof (zlen_nonneg (compile_p rest)).
+    set (pj := a + zlen (compile_e c)) in *. set (jp := pj + 3 + zlen (compile_p body)). set (je := jp + 3 + zlen (compile_p ebody)).
+    replace (ninstr c + (1 + (ninstr_p body + (1 + (ninstr_p ebody + ninstr_p rest)))) + fuel)%nat
+      with (ninstr c + (1 + (ninstr_p body + (1 + (ninstr_p ebody + (ninstr_p rest + fuel))))))%nat by lia.
+    destruct Hag as [Hag0 Hpr].
+    destruct (exec_e en c Hwc d off len a (1 + (ninstr_p body + (1 + (ninstr_p ebody + (ninstr_p rest + fuel)))))%nat r m Hag0 Hcc ltac:(lia) ltac:(lia)) as [r1 E1].
+    rewrite E1. fold pj.
+    set (m1 := after_e en a c m).
+    set (m2 := add_stmt (with_stack m1 (m_stack m)) pj (Jz pj (reify_e en a c) (jp + 3))).
+    assert (Hs : exists r', step d pj r1 m1 = Ok (pj + 3, r', m2)).
+    { apply (step_3 d pj r1 m1 (b 149) (b ((3 + zlen (compile_p body) + 3) / 256)) (b (3 + zlen (compile_p body) + 3))
+                    "ConditionalJumpOpcode" "" OCondJump m2 Hcj); [vm_compute; reflexivity | reflexivity |].
+      cbn [process]. unfold pop. subst m1. rewrite after_e_stack. cbn [bind]. f_equal. subst m2.
+      rewrite u8_jz_bytes by lia. unfold add_stmt, with_stack. cbn [m_stack m_fn m_ctx].
+      replace (pj + (3 + zlen (compile_p body) + 3)) with (jp + 3) by (subst jp; lia).
+      destruct m as [st fn cx]. reflexivity. }
+    destruct Hs as [r2 Hs]. rewrite Nat.add_1_l. erewrite run_ops_step; [| subst pj; lia | exact Hs].
+    assert (Hag2 : agrees_p en props m2) by (apply agrees_p_jz; split; assumption).
+    assert (Hst2 : m_stack m2 = []) by (subst m2; cbn; exact Hst).
+    destruct (IHa Hwa d off len (pj + 3) (1 + (ninstr_p ebody + (ninstr_p rest + fuel)))%nat r2 m2 Hag2 Hst2) as [r3 E3];
+      [replace (pj + 3) with (a + zlen (compile_e c) + 3) by (subst pj; lia); exact Hca | subst pj; lia | subst pj; lia |].
+    rewrite E3. fold jp.
+    destruct (after_p_facts en props body (pj + 3) m2 Hag2) as (A1 & A2 & _).
+    set (ma := after_p en props (pj + 3) body m2) in *.
+    set (m3 := add_stmt ma jp (Jump jp je)).
+    assert (Hs2 : exists r', step d jp r3 ma = Ok (jp + 3, r', m3)).
+    { apply (step_3 d jp r3 ma (b 147) (b ((3 + zlen (compile_p ebody)) / 256)) (b (3 + zlen (compile_p ebody)))
+                    "FowardJumpOpcode" "" OFwdJump m3);
+        [replace jp with (a + zlen (compile_e c) + 3 + zlen (compile_p body)) by (subst jp pj; lia); exact Hcm
+        | vm_compute; reflexivity | reflexivity |].
+      cbn [process]. f_equal. subst m3. rewrite u8_jz_bytes by lia.
+      replace (jp + (3 + zlen (compile_p ebody))) with je by (subst je; lia). reflexivity. }
+    destruct Hs2 as [r4 Hs2]. rewrite Nat.add_1_l. erewrite run_ops_step; [| subst jp pj; lia | exact Hs2].
+    assert (Hag3 : agrees_p en props m3) by (apply agrees_add_stmt; exact A1).
+    assert (Hst3 : m_stack m3 = []) by (subst m3; cbn [add_stmt m_stack]; rewrite A2; exact Hst2).
+    destruct (IHe Hwe d off len (jp + 3) (ninstr_p rest + fuel)%nat r4 m3 Hag3 Hst3) as [r5 E5];
+      [replace (jp + 3) with (a + zlen (compile_e c) + 3 + zlen (compile_p body) + 3) by (subst jp pj; lia); exact Hce
+      | subst jp pj; lia | subst jp pj; lia |].
+    rewrite E5.
+    destruct (after_p_facts en props ebody (jp + 3) m3 Hag3) as (B1 & B2 & _).
+    destruct (IHr Hwr d off len (jp + 3 + zlen (compile_p ebody)) fuel r5 (after_p en props (jp + 3) ebody m3) B1 (eq_trans B2 Hst3)) as [r6 E6];
+      [replace (jp + 3 + zlen (compile_p ebody)) with (a + zlen (compile_e c) + 3 + zlen (compile_p body) + 3 + zlen (compile_p ebody)) by (subst jp pj; lia); exact Hcr
+      | subst jp pj; lia | subst jp pj; lia |].
+    rewrite E6. exists r6. f_equal. subst jp pj. lia.
 Qed.
 
 (* ---- the items of a well-formed program are well positioned ---- *)
@@ -123,11 +200,11 @@ Proof.
 Qed.
 
 Lemma items_nonempty en props pc p : p <> PNil -> items en props pc p <> [].
-Proof. destruct p; [congruence | discriminate | discriminate]. Qed.
+Proof. destruct p; [congruence | discriminate | discriminate | discriminate]. Qed.
 
 Lemma items_wp en props : forall p pc, wf_p en p -> wp pc (pc + zlen (compile_p p)) (items en props pc p).
 Proof.
-  induction p as [|s r IH|c a IHa r IHr]; intros pc Hwf.
+  induction p as [|s r IH|c a IHa r IHr|c a IHa eb IHe r IHr]; intros pc Hwf.
   - cbn [items compile_p]. rewrite zlen_nil. constructor. lia.
   - destruct Hwf as [Hs Hr]. cbn [items compile_p]. rewrite zlen_app.
     pose proof (reify_s_pos en props pc s) as Hpos.
@@ -142,6 +219,16 @@ Proof.
     constructor; [subst pj; lia | apply items_nonempty; exact Hne | |].
     + apply (wp_lower (pj + 3)); [|lia]. apply IHa. exact Hwa.
     + replace (pc + (zlen (compile_e c) + (3 + (zlen (compile_p a) + zlen (compile_p r))))) with (ea + zlen (compile_p r)) by (subst ea pj; lia).
+      apply IHr. exact Hwr.
+  - destruct Hwf as (Hwc & Hne & Hne' & Hsz & Hsz' & Hwa & Hwe & Hwr). cbn [items compile_p]. rewrite !zlen_app.
+    change (zlen (jz (3 + zlen (compile_p a) + 3))) with 3. change (zlen (jmp (3 + zlen (compile_p eb)))) with 3.
+    pose proof (zlen_nonneg (compile_e c)). pose proof (zlen_nonneg (compile_p a)). pose proof (zlen_nonneg (compile_p eb)).
+    set (pj := pc + zlen (compile_e c)). set (jp := pj + 3 + zlen (compile_p a)). set (je := jp + 3 + zlen (compile_p eb)).
+    apply wp_ife; [subst pj; lia | apply items_nonempty; exact Hne | apply items_nonempty; exact Hne' | | lia | |].
+    + apply (wp_lower (pj + 3)); [|lia]. apply IHa. exact Hwa.
+    + apply IHe. exact Hwe.
+    + replace (pc + (zlen (compile_e c) + (3 + (zlen (compile_p a) + (3 + (zlen (compile_p eb) + zlen (compile_p r)))))))
+        with (je + zlen (compile_p r)) by (subst je jp pj; lia).
       apply IHr. exact Hwr.
 Qed.
 
